@@ -109,8 +109,63 @@ class CutList(list):
         return list.__iter__(self)
 
 
+def sym_int(x=0, *a):
+    """proxy-aware builtin int: truncation toward zero of a symbolic real"""
+    if type(x) is SymReal:
+        sp = core.Space.cur
+        k = z3.Int(sp.fresh("trunc"))
+        t = x.t
+        kr = z3.ToReal(k)
+        sp.add(z3.If(t >= 0, z3.And(kr <= t, t < kr + 1), z3.And(kr - 1 < t, t <= kr)))
+        return SymInt(k)
+    if type(x) is SymInt:
+        return x
+    return int(x, *a)
+
+
+def sym_float(x=0.0):
+    if type(x) is SymReal:
+        return x
+    if type(x) is SymInt:
+        return SymReal(to_real(x))
+    return float(x)
+
+
+class _IntMeta(type):
+    def __instancecheck__(cls, obj):
+        return isinstance(obj, int)
+
+    def __call__(cls, *a, **k):
+        return sym_int(*a, **k)
+
+
+class ProxyInt(metaclass=_IntMeta):
+    """stands in for the builtin `int` inside the code under test: isinstance() behaves as for int,
+    calling it converts proxies symbolically"""
+
+
+class _FloatMeta(type):
+    def __instancecheck__(cls, obj):
+        return isinstance(obj, float)
+
+    def __call__(cls, *a, **k):
+        return sym_float(*a, **k)
+
+
+class ProxyFloat(metaclass=_FloatMeta):
+    pass
+
+
+PROXY_BUILTINS = {"int": ProxyInt, "float": ProxyFloat}
+_lemma = {}
+
+
 def tadm():
-    return repo.std().tad
+    """tad.py as used by the lemma harnesses: unmodified source, proxy-aware int()/float() as module globals"""
+    if "tad" not in _lemma:
+        _lemma["tad"] = repo.load("tad", overrides=dict(PROXY_BUILTINS), imports={"reverse_dfs": repo.std().reverse_dfs},
+                                  alias="tad_lemma")
+    return _lemma["tad"]
 
 
 def mk_node(kind, idx, reward, next_states, n, final=False):
@@ -156,6 +211,6 @@ def tad_merged():
     max(...) inside the reward loop then merges instead of forking)"""
     if "tad" not in _merged:
         std = repo.std()
-        _merged["tad"] = repo.load("tad", overrides={"max": sym_max, "min": sym_min},
+        _merged["tad"] = repo.load("tad", overrides=dict(PROXY_BUILTINS, max=sym_max, min=sym_min),
                                    imports={"reverse_dfs": std.reverse_dfs}, alias="tad_merged")
     return _merged["tad"]
